@@ -39,6 +39,10 @@ def gen_program(rng):
             else:
                 s = gens.gen_struct(rng, maxdepth=3)
             prog.append(("new", r, route, s)); nreg += 1; live.append(r)
+            if route in ("seq", "ctor") and gens.depth_of(s) > 0 and rng.random() < 0.25:
+                # a near twin: the counts inside the groups differ in the seventh digit only
+                from .C19 import _perturb
+                prog.append(("new", nreg, route, _perturb(s, 1.0000003))); live.append(nreg); nreg += 1
         elif k == "dict":
             atoms = []
             for _ in range(rng.randint(1, 5)):
